@@ -18,6 +18,6 @@ let z_of_int i = z_of_zarith (Z.of_int i)
 let int_of_z z = Z.to_int (zarith_of_z z)
 let rec nat_of_int n = if n <= 0 then Datatypes.O else Datatypes.S (nat_of_int (n - 1))
 let rec int_of_nat = function Datatypes.O -> 0 | Datatypes.S n -> 1 + int_of_nat n
-let words line = List.filter (fun s -> s <> "") (String.split_on_char ' ' (String.trim line))
+let words line = Stdlib.List.filter (fun s -> s <> "") (String.split_on_char ' ' (String.trim line))
 let iter_lines f =
   try while true do f (input_line stdin) done with End_of_file -> ()
